@@ -71,6 +71,23 @@ CLAIMED['C16'] = dict(
          'doubles in [0,1); the round trip is bounded through an error '
          'model (|error| <= 2^-52 per rounding), not bit-exactly.')
 
+CLAIMED['C15'] = dict(
+    engine='crosshair',
+    technique='symbolic execution of the real Prior: own engine over z3 '
+              '(declaration sequences as symbolic choices, reference '
+              'interpreter, transforms on symbolic reals) and CrossHair/z3 '
+              'with symbolic strings for the declaration contracts',
+    text='Every declaration sequence within the bound and every unit-cube '
+         'input is covered by solver-decided paths of the real code; '
+         'CrossHair confirms the rejection-leaves-unchanged and key '
+         'uniqueness contracts over all paths for arbitrary strings of '
+         'length <= 3.',
+    design_ref='4 (C15), 2.7',
+    note='Trusted base: z3, CrossHair 0.0.110, symx/symnp, the reference '
+         'interpreter of the declaration list written from the property '
+         'statement; scipy.stats.uniform replaced by its closed form in the '
+         'symbolic run.')
+
 NOT_APPLICABLE = {
     'C04': 'statement about the distribution of whole-program outputs over '
            'seed ensembles; no bounded symbolic input space decides it '
